@@ -1,5 +1,6 @@
 from __future__ import annotations
 
+import builtins
 import operator
 import re
 import sys
@@ -1134,6 +1135,7 @@ class Parser(ABC):
     ) -> None:
         if self.data_model_type != pydantic_model_v2.BaseModel:
             return
+        class_names = {model.class_name for model in models}
         for model in models:
             for field in model.fields:
                 filed_name = field.name
@@ -1141,6 +1143,8 @@ class Parser(ABC):
                 for data_type in field.data_type.all_data_types:
                     if data_type.reference:
                         filed_name_resolver.exclude_names.add(data_type.reference.short_name)
+                    elif data_type.type in class_names:  # a class named by its type string (GraphQL)
+                        filed_name_resolver.exclude_names.add(data_type.type)
                 new_filed_name = filed_name_resolver.add(["field"], cast("str", filed_name)).name
                 if filed_name != new_filed_name:
                     field.alias = filed_name
@@ -1213,16 +1217,25 @@ class Parser(ABC):
     ) -> None:
         for model in models:
             for model_field in model.fields:
-                if model_field.data_type.type in all_model_field_names:
-                    alias = model_field.data_type.type + "_aliased"
-                    model_field.data_type.type = alias
-                    if model_field.data_type.import_:  # pragma: no cover
-                        model_field.data_type.import_ = Import(
-                            from_=model_field.data_type.import_.from_,
-                            import_=model_field.data_type.import_.import_,
-                            alias=alias,
-                            reference_path=model_field.data_type.import_.reference_path,
-                        )
+                # every occurrence is renamed: the aliased import serves the whole module
+                for data_type in model_field.data_type.all_data_types:
+                    if not data_type.type or data_type.type not in all_model_field_names:
+                        continue
+                    import_ = data_type.import_
+                    if import_ is None:
+                        if not hasattr(builtins, data_type.type):
+                            # a class of this module is not reached through an import:
+                            # __change_field_name renames the member instead
+                            continue
+                        import_ = Import(from_="builtins", import_=data_type.type)
+                    alias = data_type.type + "_aliased"
+                    data_type.import_ = Import(
+                        from_=import_.from_,
+                        import_=import_.import_,
+                        alias=alias,
+                        reference_path=import_.reference_path,
+                    )
+                    data_type.type = alias
 
     def parse(  # noqa: PLR0912, PLR0914, PLR0915
         self,
